@@ -882,7 +882,22 @@ func (ex *Exec) applyContract(con *Contract, cname string, names []string, typs 
 				continue
 			}
 			ns++
-			v, err := env.Eval(cl.E)
+			// a site clause may also name the parameters of the function under contract (the caller),
+			// unless a parameter of the callee has the same name
+			senv := env
+			if len(ex.params) > 0 {
+				sv := map[string]*CVal{}
+				for n, pv := range ex.params {
+					if pv != nil && pv.T != nil && ex.paramTyp[n] != nil {
+						sv[n] = &CVal{T: ex.termOf(pv), Typ: ex.paramTyp[n]}
+					}
+				}
+				for n, cv := range vars {
+					sv[n] = cv
+				}
+				senv = &CEnv{ex: ex, vars: sv, st: pre, old: pre, pkg: pkg, reach: reach}
+			}
+			v, err := senv.Eval(cl.E)
 			if err != nil {
 				ex.fail("site %s: %v", cl.Callee, err)
 			}
